@@ -47,9 +47,10 @@ def handle : List String → Option String
   | "pv.resume3" :: prev :: eph :: items =>
     match Drv.Tlv.parseItems items with
     | some m2 =>
-      match resumeM3 real (ofHex prev) (ofHex eph) m2 with
-      | none => some "none"
-      | some (sid, sh) =>
+      match verifyM2Resume real (ofHex prev) (ofHex eph) m2 with
+      | .error _ => some "none"
+      | .ok none => some "none"
+      | .ok (some (sid, sh)) =>
         let k := keysOf real sh
         some s!"some {toHex sid} {toHex k.c2a} {toHex k.a2c}"
     | none => some "bad-op"
